@@ -186,8 +186,8 @@ fn handle_case(ctx: &mut Ctx, cfg: &ConfigCase, origin: &str) {
 
 /// every configuration of ≤ `n` targets over a small universe of paths and uses
 fn exhaustive(ctx: &mut Ctx, n: usize) {
-    let paths = ["a", "ab", "a/b", "a/b/c", "ab/c", "b"];
-    let uses = ["", "a", "ab", "a/b/f", "b/x", "abc"];
+    let paths = ["a", "ab", "a/b", "a/b/c", "ab/c", "b", "b/"];
+    let uses = ["", "a", "ab", "a/b/f", "b/x", "abc", "b", "b/"];
     let mut count = 0u64;
     // choose n distinct paths in every order, each with one uses choice
     let mut idx = vec![0usize; n];
@@ -246,7 +246,7 @@ pub fn run(ctx: &mut Ctx) {
         exhaustive(ctx, 3);
     }
     let n = if ctx.thorough { 40_000 } else { 3_000 } * ctx.budget;
-    let opts = GenOpts { max_targets: if ctx.thorough { 40 } else { 12 }, allow_dups: true, allow_odd: true };
+    let opts = GenOpts { max_targets: if ctx.thorough { 40 } else { 12 }, allow_dups: true, allow_odd: true, allow_slash: true };
     for _ in 0..n {
         let mut r = ctx.rng.fork();
         let cfg = gen::config(&mut r, &opts);
